@@ -19,7 +19,7 @@ EnfC11 == {"C11"}
 EnfC16 == {"C16"}
 EnfAll == {"C03", "C04", "C05", "C07", "C10", "C11", "C14"}
 
-Producers == {"var", "neg", "and", "or", "xor", "iff", "ite", "cond", "exists", "compose", "cnf"}
+Producers == {"var", "neg", "and", "or", "xor", "iff", "ite", "cond", "exists", "compose", "cnf", "expr", "plan"}
 Queries == {"eq", "pred", "wmc", "semhash"}
 
 Init ==
